@@ -68,4 +68,14 @@ theorem builtin_nodes :
       | none => false) = true := by decide
 
 
+/-- [C02, C08] every field of the node a builtin's case builds is initialised with an argument as the argument parser
+    returned it — a plain local (`arg`, `arg1` … `args`, `args[i]`), never a part of it, a call or a conversion: no case
+    looks inside its arguments to build something other than the call that was written (`length(keys(x))` stays a
+    `length` of a `keys`) -/
+theorem builtin_args_plain :
+    builtinInits.all (fun row => row.2.all (fun leaf =>
+      ["arg", "arg1", "arg2", "arg3", "arg4", "arg5", "args", "args[0]", "args[1]", "args[2]", "args[3]", "args[1:]",
+        "args[2:]", "first", "second", "third", "fourth", "rest", "a", "b", "c", "d", "x", "y"].contains leaf)) = true := by
+  decide
+
 end Jmes.Tie
